@@ -230,6 +230,10 @@ class Check:
         self.exhaustive = False
         self.extra = {}
         os.makedirs(REPLAY, exist_ok=True)
+        for fn in os.listdir(REPLAY):          # replays of earlier runs of this check are stale
+            if fn.startswith(prop + "-"):
+                try: os.remove(os.path.join(REPLAY, fn))
+                except OSError: pass
 
     def add_tlc(self, name, res, constants=""):
         self.states += res.distinct; self.transitions += res.states
